@@ -691,43 +691,97 @@ func checkMtree(c *Ctx, r *Report, pa *provAnalysis) {
 				ent = src
 			}
 		})
+		if hdr == nil {
+			// the header is built by a helper: the size is the argument that
+			// becomes its Size field, in the call that also names the member
+			forEachInstr(fn, func(in ssa.Instruction) {
+				call, ok := in.(*ssa.Call)
+				if !ok {
+					return
+				}
+				sc := call.Call.StaticCallee()
+				if sc == nil || sc.Blocks == nil {
+					return
+				}
+				named := false
+				for _, a := range call.Call.Args {
+					if constOrEmpty(a) == ".PKGINFO" {
+						named = true
+					}
+				}
+				if !named {
+					return
+				}
+				for i, a := range call.Call.Args {
+					if i < len(sc.Params) && paramBecomesHeaderField(sc, sc.Params[i], "Size", 0) {
+						src := a
+						if cv, ok := src.(*ssa.Convert); ok {
+							src = cv.X
+						}
+						hdr = src
+					}
+				}
+			})
+		}
 		r.Check(hdr != nil && hdr == ent, "F8", "archlinux: .PKGINFO size in the tar header and in the mtree entry is one value", c.pos(fn.Pos()), "both sizes must come from the same measurement of the rendered .PKGINFO")
 	}
 }
 
 func writesConstHeader(fn *ssa.Function, name string) bool {
 	found := false
-	isNameStore := func(st *ssa.Store) bool {
-		fa, ok := st.Addr.(*ssa.FieldAddr)
-		return ok && fieldName(fa.X.Type(), fa.Field) == "Name" && isNamed(fa.X.Type(), "archive/tar", "Header")
-	}
 	forEachInstr(fn, func(in ssa.Instruction) {
 		switch x := in.(type) {
 		case *ssa.Store:
-			if isNameStore(x) && constOrEmpty(x.Val) == name {
+			if isHeaderFieldStore(x, "Name") && constOrEmpty(x.Val) == name {
 				found = true
 			}
 		case *ssa.Call:
 			// the constant handed to a module helper whose parameter becomes
-			// the header's name
+			// the header's name (through further helpers)
 			sc := x.Call.StaticCallee()
 			if sc == nil || sc.Blocks == nil {
 				return
 			}
 			for i, a := range x.Call.Args {
-				if constOrEmpty(a) != name || i >= len(sc.Params) {
-					continue
+				if constOrEmpty(a) == name && i < len(sc.Params) && paramBecomesHeaderField(sc, sc.Params[i], "Name", 0) {
+					found = true
 				}
-				prm := sc.Params[i]
-				forEachInstr(sc, func(i2 ssa.Instruction) {
-					if st, ok := i2.(*ssa.Store); ok && isNameStore(st) && st.Val == ssa.Value(prm) {
-						found = true
-					}
-				})
 			}
 		}
 	})
 	return found
+}
+
+func isHeaderFieldStore(st *ssa.Store, field string) bool {
+	fa, ok := st.Addr.(*ssa.FieldAddr)
+	return ok && fieldName(fa.X.Type(), fa.Field) == field && isNamed(fa.X.Type(), "archive/tar", "Header")
+}
+
+// paramBecomesHeaderField: the parameter is stored into the given field of a
+// tar header, here or in a module function it is handed on to.
+func paramBecomesHeaderField(fn *ssa.Function, prm *ssa.Parameter, field string, depth int) bool {
+	if depth > 3 || prm.Referrers() == nil {
+		return false
+	}
+	for _, ref := range *prm.Referrers() {
+		switch x := ref.(type) {
+		case *ssa.Store:
+			if isHeaderFieldStore(x, field) && x.Val == ssa.Value(prm) {
+				return true
+			}
+		case *ssa.Call:
+			sc := x.Call.StaticCallee()
+			if sc == nil || sc.Blocks == nil {
+				continue
+			}
+			for i, a := range x.Call.Args {
+				if a == ssa.Value(prm) && i < len(sc.Params) && paramBecomesHeaderField(sc, sc.Params[i], field, depth+1) {
+					return true
+				}
+			}
+		}
+	}
+	return false
 }
 
 // checkAccumulators: a size accumulator of a payload loop adds, in each
